@@ -14,6 +14,7 @@ mod features;
 mod gate;
 mod gcsuite;
 mod execsuite;
+mod ctrlgen;
 mod replsuite;
 mod model;
 mod dwarf;
@@ -69,6 +70,10 @@ fn main() {
         "exec" => execsuite::main(seed, &tier, only.as_deref()),
         "replace" => replsuite::main(seed, &tier, only.as_deref()),
         "gate-deep" => gate::deep(args[2].parse().unwrap()),
+        "wat2hex" => {
+            let bytes = wat::parse_file(&args[2]).expect("wat");
+            println!("{}", out::hex(&bytes));
+        }
         "opsxtest" => {
             let u = opsx::universe(1);
             println!("supported plain ops {} typed {} unsupported {} cases {} untypable {:?}", u.supported_plain, u.typed, u.unsupported, u.cases.len(), u.untypable);
